@@ -450,6 +450,25 @@ class Cache(Machine):
                 if reject == "reject:duplicate-uri-in-hierarchy" and prop == "C10":
                     return [violation("C10", "duplicate-uri-rejected", op["i"],
                                       "two payloads of one hierarchy share a URI, yet the cache was created")]
+                if reject == "reject:duplicate-uri-in-hierarchy" and prop == "C11":
+                    # C11 does not say the input is refused, but if the tool goes ahead nothing may be lost: every
+                    # payload is still in its envelope or is one (own) entry of the cache
+                    ex["duplicate_name_hierarchy_accepted"] = ex.get("duplicate_name_hierarchy_accepted", 0) + 1
+                    try:
+                        before = payload_multiset(inp, dep_rx=op["dep"])
+                        after = payload_multiset(host.read(out_env_rel), dep_rx=op["dep"])
+                        pool = list(read_cache(host.read(out_rel) or b"", eb)[0])
+                    except (cborr.CborError, IndexError, AttributeError, TypeError) as e:
+                        return [violation("C11", "output-unreadable", op["i"], repr(e))]
+                    for key, b in before.items():
+                        places = 1 if after.get(key) == b else 0
+                        if (key[1], b) in pool:
+                            pool.remove((key[1], b))
+                            places += 1
+                        if places != 1:
+                            return [violation("C11", "each-payload-in-exactly-one-place", op["i"],
+                                              f"payload {key} ({len(b)} B) of a hierarchy that uses one name on two "
+                                              f"levels is in {places} places after the operation")]
             if host.read(out_env_rel) != (inp if in_place else None) and op["out_env"] != op["in"]:
                 model["envs"].pop(op["out_env"], None)
             if in_place and host.read(in_rel) != inp:
